@@ -283,7 +283,21 @@ let exec (s : t) (verbose : bool) (f : string array) (obs : string option) : str
        let ((k1, _), _) = load_merge_files s.disk in
        s.disk <- k1; "err failed"
      | (_, h) -> lock_close h; "ok")
-  | "openrace" -> "done"
+  | "openrace" ->
+    (* how many of the racing processes got the directory (one after the other) is observed; each of them
+       opens it - adopting a finished merge that waits there - and closes it again *)
+    let o = match obs with Some o -> obs_head o | None -> "done ok=0" in
+    let oks = (match split_first o "ok=" with (_, r) -> (try int_of_string (String.trim r) with _ -> 0)) in
+    if s.db = None then begin
+      let c = { c_fsize = n_of_string f.(3); c_sync = n_of_string f.(4); c_bps = n_of_string f.(5);
+                c_io = n_of_string f.(6) } in
+      for _ = 1 to oks do
+        (match db_open c s.disk with
+         | (OpenOk (d, k), _) -> let (k2, _) = db_close d k in s.disk <- k2
+         | (OpenErr (_, k), _) -> s.disk <- k)
+      done
+    end;
+    Printf.sprintf "done ok=%d" oks
   | "concsched" ->
     let parse_prog (spec : string) : call list =
       if spec = "-" || spec = "" then [] else
@@ -379,6 +393,12 @@ let exec (s : t) (verbose : bool) (f : string array) (obs : string option) : str
     (match Hashtbl.find_opt cur_handle s.cur with Some h -> lock_close h | None -> ());
     s.db <- None; s.disk <- k; s.batch <- None;
     "ok" ^ events_str ~sorted:true evs
+  | "closefail" ->
+    (* Close with a failing file sync: everything was written before, the lock is released all the same *)
+    let (k, _) = db_close (get_db s) s.disk in
+    (match Hashtbl.find_opt cur_handle s.cur with Some h -> lock_close h | None -> ());
+    s.db <- None; s.disk <- k; s.batch <- None;
+    "ok"
   | "put" ->
     let ((d, e), evs) = db_put (get_db s) (tok_bytes f.(2)) (tok_bytes f.(3)) in
     s.db <- Some d;
